@@ -43,10 +43,179 @@ macro "pf_norm" : tactic => `(tactic| simp only [Bool.not_not, Bool.not_true, Bo
   Sum.elim_inr, Sum.elim_inl, Option.elim_some, Option.elim_none, Option.map_some, Option.map_none, Option.bind_some, Option.bind_none,
   bne_self_eq_false, List.isEmpty_cons, List.head?_cons])
 
+/-! ### stage 1 reference: a frozen copy of the printed loop (as generated from the pinned source).  The printed loop of the
+    working tree is first shown equal to this copy (by `rfl`, or by unfolding + congruence when the source was rewritten), and the
+    copy is shown equal to the model by the case analysis below - so that a harmless rewrite of `_parse_file` does not have to be
+    matched by that case analysis. -/
+namespace Ref
+open P0f P0f.Py
+def parseFileLoop (file : List (List Char)) : List (List Char) → Db → (Option Dir) → (Option DbLabel) → Nat → (Option RecKind) → PState → Except LoadErr Db
+  | [], database, direction, label, line_number_next, record_cls, state =>
+    (Except.ok database)
+  | line :: xs, database, direction, label, line_number_next, record_cls, state =>
+    let line_number : Nat := line_number_next
+    let line_number_next : Nat := (line_number_next + 1)
+    let line := (strip line)
+    if ((!(!List.isEmpty line)) || (((List.take 1 (List.drop 0 line)) == ("\n".toList)) || ((List.take 1 (List.drop 0 line)) == (";".toList)))) then
+      (parseFileLoop file xs database direction label line_number_next record_cls state)
+    else
+      if ((List.take 1 (List.drop 0 line)) == ("[".toList)) then
+        Option.elim (P0f.Gen.parseSection line) (Except.error (LoadErr.parsing line_number)) (fun r0_1 =>
+        let u4_0 := r0_1
+        let record_cls := u4_0.1
+        let direction := u4_0.2
+        let database := (Db.createKD database record_cls direction)
+        let state := PState.needLabel
+        (parseFileLoop file xs database direction label line_number_next (some record_cls) state))
+      else
+        let u4_3 := (partition '=' line)
+        let parameter := u4_3.1
+        let value := u4_3.2.2
+        let parameter := (strip parameter)
+        let value := (strip value)
+        Sum.elim (fun r => r) (fun (j4 : Db × PState × (Option DbLabel)) =>
+          let database := j4.1
+          let state := j4.2.1
+          let label := j4.2.2
+          (parseFileLoop file xs database direction label line_number_next record_cls state))
+          ((if (parameter == ("sig".toList)) then
+            Option.elim record_cls (
+              (Sum.inl (Except.error (LoadErr.parsing line_number)))) (fun record_cls =>
+              if (state != PState.needSig) then
+                (Sum.inl (Except.error (LoadErr.parsing line_number)))
+              else
+                Option.elim (P0f.Gen.parseSigFor record_cls value) (Sum.inl (Except.error (LoadErr.parsing line_number))) (fun r0_2 =>
+                let record := ({ label := label, sig := r0_2, raw := value, line := line_number } : DbRec)
+                Option.elim (Db.addKD database record_cls direction record) (Sum.inl (Except.error LoadErr.database)) (fun r1_3 =>
+                let database := r1_3
+                (Sum.inr (database, state, label)))))
+          else
+            if (parameter == ("label".toList)) then
+              Option.elim record_cls (
+                (Sum.inl (Except.error (LoadErr.parsing line_number)))) (fun record_cls =>
+                if (!((state == PState.needLabel) || (state == PState.needSig))) then
+                  (Sum.inl (Except.error (LoadErr.parsing line_number)))
+                else
+                  let state := PState.needSig
+                  Option.elim (P0f.Gen.parseLabelFor record_cls value) (Sum.inl (Except.error (LoadErr.parsing line_number))) (fun r0_4 =>
+                  let label := r0_4
+                  Sum.elim (fun r => (Sum.inl r)) (fun (state : PState) =>
+                    (Sum.inr (database, state, (some label))))
+                    ((if ((DbLabel.isOs label) && label.isUserApp) then
+                      let state := PState.needSys
+                      (Sum.inr (state))
+                    else
+                      (Sum.inr (state))) : Sum (Except LoadErr Db) (PState))))
+            else
+              Sum.elim (fun r => (Sum.inl r)) (fun (j7 : (Option DbLabel) × PState) =>
+                let label := j7.1
+                let state := j7.2
+                (Sum.inr (database, state, label)))
+                ((if (parameter == ("sys".toList)) then
+                  if ((state != PState.needSys) || (!(Option.elim label false DbLabel.isOs))) then
+                    (Sum.inl (Except.error (LoadErr.parsing line_number)))
+                  else
+                    let label : Option DbLabel := (Option.map (DbLabel.withSys (split ',' value)) label)
+                    let state := PState.needSig
+                    (Sum.inr (label, state))
+                else
+                  if (!((parameter == ("classes".toList)) || (parameter == ("ua_os".toList)))) then
+                    (Sum.inl (Except.error (LoadErr.parsing line_number)))
+                  else
+                    (Sum.inr (label, state))) : Sum (Except LoadErr Db) ((Option DbLabel) × PState))) : Sum (Except LoadErr Db) (Db × PState × (Option DbLabel)))
+end Ref
+
 def dbOf : Except LoadErr PSt → Except LoadErr Db
   | .ok st => .ok st.db
   | .error e => .error e
 
+theorem ref_parseFileLoop (file : List (List Char)) : ∀ (ls : List (List Char)) (n : Nat) (db : Db) (state : PState) (sec : Option Section)
+    (label : Option DbLabel),
+    Ref.parseFileLoop file ls db (sec.bind Section.dir) label n (sec.map Section.kind) state
+      = dbOf (parseGo ls n { db := db, state := state, label := label, sec := sec }) := by
+  intro ls
+  induction ls with
+  | nil => intros; rfl
+  | cons raw ls ih =>
+    intro n db state sec label
+    unfold Ref.parseFileLoop parseGo stepLine
+    have e1 : ("\n".toList) = ['\n'] := rfl
+    have e2 : (";".toList) = [';'] := rfl
+    have e3 : ("[".toList) = ['['] := rfl
+    simp only [e1, e2, e3]
+    cases hl : strip raw with
+    | nil => simp [ih]
+    | cons c t =>
+      simp only [take1_cons]
+      generalize strip (partition '=' (c :: t)).fst = param
+      generalize strip (partition '=' (c :: t)).snd.snd = value
+      pf_norm
+      by_cases hsk : (c == ';' || c == '\n') = true
+      · have hsk' : (c == '\n' || c == ';') = true := by rw [Bool.or_comm]; exact hsk
+        simp only [hsk, hsk']; pf_norm; exact ih _ _ _ _ _
+      · have hsk' : ¬ (c == '\n' || c == ';') = true := by rw [Bool.or_comm]; exact hsk
+        simp only [hsk, hsk']; pf_norm
+        by_cases hb : (c == '[') = true
+        · simp only [hb, if_true, gen_parseSection]
+          cases parseSection (c :: t) with
+          | none => rfl
+          | some s => simp only [Option.map_some, Option.elim_some, createKD_section]; exact ih _ _ _ (some s) _
+        · simp only [hb, if_false]
+          by_cases hsig : (param == "sig".toList) = true
+          · simp only [hsig, if_true]
+            cases sec with
+            | none => cases state <;> rfl
+            | some s =>
+              simp only [Option.map_some, Option.elim_some, Option.bind_some, gen_parseSigFor, addKD_section]
+              cases state <;> try rfl
+              simp only [bne_self_eq_false, Bool.false_eq_true, if_false]
+              cases parseSigFor s.kind value with
+              | none => rfl
+              | some sg =>
+                simp only [Option.elim_some]
+                cases hadd : db.add s { label := label, sig := sg, raw := value, line := n } with
+                | ok db' => simp only [Sum.elim_inr]; exact ih _ _ _ (some s) _
+                | error e => have := add_error _ _ _ _ hadd; subst this; rfl
+          · simp only [hsig, if_false]
+            by_cases hlab : (param == "label".toList) = true
+            · simp only [hlab, if_true]
+              cases sec with
+              | none => rfl
+              | some s =>
+                simp only [Option.map_some, Option.elim_some, gen_parseLabelFor]
+                by_cases hst : (state == PState.needLabel || state == PState.needSig) = true
+                · simp only [hst, Bool.not_true, Bool.false_eq_true, if_false, if_true]
+                  cases parseLabelFor s.kind value with
+                  | none => rfl
+                  | some lb =>
+                    simp only [Option.elim_some]
+                    cases lb with
+                    | mtu nm => simp only [DbLabel.isOs, DbLabel.isUserApp, Bool.false_and, Bool.false_eq_true, if_false, Sum.elim_inr]; exact ih _ _ _ (some s) _
+                    | os l sy =>
+                      simp only [DbLabel.isOs, DbLabel.isUserApp, Bool.true_and]
+                      by_cases hu : l.isUserApp = true
+                      · simp only [hu]; pf_norm; exact ih _ _ _ (some s) _
+                      · simp only [hu]; pf_norm; exact ih _ _ _ (some s) _
+                · simp only [hst, Bool.not_false, if_true, if_false]; rfl
+            · simp only [hlab, if_false]
+              by_cases hsys : (param == "sys".toList) = true
+              · simp only [hsys, if_true]
+                cases state <;> try (cases label <;> rfl)
+                cases label with
+                | none => rfl
+                | some lb =>
+                  cases lb with
+                  | mtu nm => rfl
+                  | os l sy =>
+                    simp only [bne_self_eq_false, Option.elim_some, DbLabel.isOs, Bool.not_true, Bool.or_self, Bool.false_eq_true, if_false,
+                      Sum.elim_inr, Option.map_some, DbLabel.withSys]
+                    exact ih _ _ _ _ _
+              · simp only [hsys, if_false, isSkippedParam]
+                by_cases hskp : (param == "classes".toList || param == "ua_os".toList) = true
+                · simp only [hskp, Bool.not_true, Bool.false_eq_true, if_false, if_true, Sum.elim_inr]; exact ih _ _ _ _ _
+                · simp only [hskp, Bool.not_false, if_true, if_false]; rfl
+
+/-- the printed loop of the working tree = the model's line loop -/
 theorem gen_parseFileLoop (file : List (List Char)) : ∀ (ls : List (List Char)) (n : Nat) (db : Db) (state : PState) (sec : Option Section)
     (label : Option DbLabel),
     Gen.parseFileLines_loop0 file ls db (sec.bind Section.dir) label n (sec.map Section.kind) state
@@ -60,87 +229,21 @@ theorem gen_parseFileLoop (file : List (List Char)) : ∀ (ls : List (List Char)
        | some s => simp [secOf_section]
      rw [hs]
      rfl)
-  | (intro ls
-     induction ls with
-     | nil => intros; rfl
-     | cons raw ls ih =>
-       intro n db state sec label
-       unfold Gen.parseFileLines_loop0 parseGo stepLine
-       have e1 : ("\n".toList) = ['\n'] := rfl
-       have e2 : (";".toList) = [';'] := rfl
-       have e3 : ("[".toList) = ['['] := rfl
-       simp only [e1, e2, e3]
-       cases hl : strip raw with
-       | nil => simp [ih]
-       | cons c t =>
-         simp only [take1_cons]
-         generalize strip (partition '=' (c :: t)).fst = param
-         generalize strip (partition '=' (c :: t)).snd.snd = value
-         pf_norm
-         by_cases hsk : (c == ';' || c == '\n') = true
-         · have hsk' : (c == '\n' || c == ';') = true := by rw [Bool.or_comm]; exact hsk
-           simp only [hsk, hsk']; pf_norm; exact ih _ _ _ _ _
-         · have hsk' : ¬ (c == '\n' || c == ';') = true := by rw [Bool.or_comm]; exact hsk
-           simp only [hsk, hsk']; pf_norm
-           by_cases hb : (c == '[') = true
-           · simp only [hb, if_true, gen_parseSection]
-             cases parseSection (c :: t) with
-             | none => rfl
-             | some s => simp only [Option.map_some, Option.elim_some, createKD_section]; exact ih _ _ _ (some s) _
-           · simp only [hb, if_false]
-             by_cases hsig : (param == "sig".toList) = true
-             · simp only [hsig, if_true]
-               cases sec with
-               | none => cases state <;> rfl
-               | some s =>
-                 simp only [Option.map_some, Option.elim_some, Option.bind_some, gen_parseSigFor, addKD_section]
-                 cases state <;> try rfl
-                 simp only [bne_self_eq_false, Bool.false_eq_true, if_false]
-                 cases parseSigFor s.kind value with
-                 | none => rfl
-                 | some sg =>
-                   simp only [Option.elim_some]
-                   cases hadd : db.add s { label := label, sig := sg, raw := value, line := n } with
-                   | ok db' => simp only [Sum.elim_inr]; exact ih _ _ _ (some s) _
-                   | error e => have := add_error _ _ _ _ hadd; subst this; rfl
-             · simp only [hsig, if_false]
-               by_cases hlab : (param == "label".toList) = true
-               · simp only [hlab, if_true]
-                 cases sec with
-                 | none => rfl
-                 | some s =>
-                   simp only [Option.map_some, Option.elim_some, gen_parseLabelFor]
-                   by_cases hst : (state == PState.needLabel || state == PState.needSig) = true
-                   · simp only [hst, Bool.not_true, Bool.false_eq_true, if_false, if_true]
-                     cases parseLabelFor s.kind value with
-                     | none => rfl
-                     | some lb =>
-                       simp only [Option.elim_some]
-                       cases lb with
-                       | mtu nm => simp only [DbLabel.isOs, DbLabel.isUserApp, Bool.false_and, Bool.false_eq_true, if_false, Sum.elim_inr]; exact ih _ _ _ (some s) _
-                       | os l sy =>
-                         simp only [DbLabel.isOs, DbLabel.isUserApp, Bool.true_and]
-                         by_cases hu : l.isUserApp = true
-                         · simp only [hu]; pf_norm; exact ih _ _ _ (some s) _
-                         · simp only [hu]; pf_norm; exact ih _ _ _ (some s) _
-                   · simp only [hst, Bool.not_false, if_true, if_false]; rfl
-               · simp only [hlab, if_false]
-                 by_cases hsys : (param == "sys".toList) = true
-                 · simp only [hsys, if_true]
-                   cases state <;> try (cases label <;> rfl)
-                   cases label with
-                   | none => rfl
-                   | some lb =>
-                     cases lb with
-                     | mtu nm => rfl
-                     | os l sy =>
-                       simp only [bne_self_eq_false, Option.elim_some, DbLabel.isOs, Bool.not_true, Bool.or_self, Bool.false_eq_true, if_false,
-                         Sum.elim_inr, Option.map_some, DbLabel.withSys]
-                       exact ih _ _ _ _ _
-                 · simp only [hsys, if_false, isSkippedParam]
-                   by_cases hskp : (param == "classes".toList || param == "ua_os".toList) = true
-                   · simp only [hskp, Bool.not_true, Bool.false_eq_true, if_false, if_true, Sum.elim_inr]; exact ih _ _ _ _ _
-                   · simp only [hskp, Bool.not_false, if_true, if_false]; rfl)
+  | (have h : ∀ (ls : List (List Char)) (db : Db) (dir : Option Dir) (label : Option DbLabel) (n : Nat) (rc : Option RecKind) (state : PState),
+         Gen.parseFileLines_loop0 file ls db dir label n rc state = Ref.parseFileLoop file ls db dir label n rc state := by
+       intro ls
+       induction ls with
+       | nil => intros; first | rfl | (unfold Gen.parseFileLines_loop0 Ref.parseFileLoop; rfl)
+       | cons x xs ih =>
+         intros
+         unfold Gen.parseFileLines_loop0 Ref.parseFileLoop
+         try simp only [ih]
+         all_goals first
+           | rfl
+           | grind (splits := 80)
+     intro ls n db state sec label
+     rw [h]
+     exact ref_parseFileLoop file ls n db state sec label)
 
 /-- `_parse_file` as printed from the source = the model's line loop: for every sequence of lines, the same record store or
     the same error, line number included (C09: what a load denotes; C10: which errors can leave it; C11: nothing is kept of a
